@@ -308,13 +308,19 @@ def _reed_muller_netlist(n, cols, prefix):
 def subcircuit_cases(draw, tier):
     nl = draw(gen.netlists(min_inputs=1, max_inputs=5, min_gates=2, max_gates=18 if tier == 'thorough' else 14,
                            max_arity=3, styles=('plain', 'mixed'), min_outputs=1, max_outputs=4))
+    fault = draw(st.sampled_from(['none', 'none', 'none', 'unlisted_fanout', 'unlisted_fanout', 'non_input_mapped',
+                                  'missing_input', 'label_collision', 'overlap_keys', 'unread_unmapped_input']))
+    grow = [draw(st.integers(0, 40)) for _ in range(draw(st.integers(0, 6)))]
+    if fault == 'unlisted_fanout' and draw(st.booleans()):
+        # a cut point that reads an interior gate of the cone (non-convex cut) next to an unlisted fan-out
+        grow = [draw(st.integers(25, 40)) for _ in range(draw(st.integers(1, 3)))] + grow[:2]
     return {'nl': nl, 'route': draw(gen.routes(nl)), 'blocks': _blocks(draw, nl) if draw(st.booleans()) else [],
             'roots': [draw(st.integers(0, 40)) for _ in range(draw(st.integers(1, 2)))],
-            'grow': [draw(st.integers(0, 40)) for _ in range(draw(st.integers(0, 6)))],
+            'grow': grow,
             'form': draw(st.sampled_from(['dnf', 'rm', 'chain'])),
             'label_mode': draw(st.sampled_from(['fresh', 'fresh', 'same_boundary'])),
-            'fault': draw(st.sampled_from(['none', 'none', 'none', 'unlisted_fanout', 'non_input_mapped',
-                                           'missing_input', 'label_collision', 'overlap_keys', 'unread_unmapped_input'])),
+            'fault': fault,
+            'reuse_victim_label': draw(st.booleans()),
             'uuid_seed': draw(st.integers(0, 2 ** 20))}
 
 
@@ -332,7 +338,14 @@ def plan_replacement(nl, roots_idx, grow_idx, form, label_mode, prefix='rs_'):
         frontier = sorted({o for s in S for o in ops[s] if o not in S and typ[o] != 'INPUT'})
         if not frontier:
             break
-        S.add(frontier[gidx % len(frontier)])
+        f = frontier[gidx % len(frontier)]
+        skipped = [o for o in ops[f] if typ[o] != 'INPUT' and o not in S]
+        if gidx >= 25 and skipped:
+            # jump over f: one of ITS operands joins the cone while f stays a cut point that reads the cone
+            # (a non-convex cut; such requests may be refused, but never answered wrongly)
+            S.add(skipped[gidx % len(skipped)])
+        else:
+            S.add(f)
     order = [l for l in refsem.own_toposort(nl) if l in S]
     I = list(dict.fromkeys(o for s in order for o in ops[s] if o not in S))
     if len(I) > 5:
@@ -396,13 +409,25 @@ def check_subcircuit(case):
     downstream_boundary = plan['boundary_depends_on_cone']
     fault = case['fault']
     applied = 'none'
+    victim_to_cut_point = False
     if fault == 'unlisted_fanout':
         extra = [s for s in need_out if s not in roots]
         if extra:
-            victim = extra[0]
+            # prefer a cone gate whose users outside the cone are all cut points
+            pref = [s for s in extra if s not in nl['outputs'] and all(u in S or u in I for l2, _, o2 in nl['gates'] for u in [l2] if s in o2)]
+            victim = (pref or extra)[0]
+            victim_to_cut_point = bool(pref)
             del outputs_mapping[victim]
             idx = need_out.index(victim)
+            dropped = rep['outputs'][idx]
             rep = dict(rep, outputs=[o for q, o in enumerate(rep['outputs']) if q != idx])
+            # the label of the unlisted gate may turn up inside the replacement on some unrelated gate
+            other_internal = [g[0] for g in rep['gates'] if g[1] != 'INPUT' and g[0] not in rep['outputs'] and g[0] != dropped]
+            if case.get('reuse_victim_label') and other_internal and victim not in [g[0] for g in rep['gates']]:
+                tgt = other_internal[0]
+                rn2 = lambda x: victim if x == tgt else x
+                rep = {'inputs': rep['inputs'], 'gates': [[rn2(l), t, [rn2(o) for o in op]] for l, t, op in rep['gates']],
+                       'outputs': rep['outputs']}
             applied = fault
     elif fault == 'non_input_mapped' and I:
         non_in = [g[0] for g in rep['gates'] if g[1] != 'INPUT' and g[0] not in outputs_mapping.values()]
@@ -443,7 +468,13 @@ def check_subcircuit(case):
             if applied == 'none' and not downstream_boundary:
                 raise Violation('valid_replacement_rejected',
                                 f'{type(e).__name__} for cone {sorted(S)} boundary {I} outputs {need_out} labels={case["label_mode"]}')
-            return {'nt': len(S) >= 2, 'cls': {'raised:' + type(e).__name__, 'fault:' + applied}}
+            dedicated = ('ReplaceSubcircuitError', 'CreateBlockError', 'DeleteBlockError', 'CircuitValidationError')
+            if type(e).__name__ not in dedicated and wellformed.basic_problems(c):
+                # not a refusal: the call broke off half-way with an unrelated error and left an ill-formed circuit behind
+                raise Violation('broke_off_halfway', f'{type(e).__name__}: {e} (fault={applied}); the circuit is ill-formed afterwards: '
+                                                     f'{wellformed.basic_problems(c)[:2]}')
+            return {'nt': len(S) >= 2, 'cls': {'raised:' + type(e).__name__, 'fault:' + applied}
+                    | ({'unlisted_fanout_into_cut_point'} if victim_to_cut_point else set())}
     if ret is not c:
         raise Violation('replace_return', 'does not return the circuit')
     res = refsem.from_circuit(c)
@@ -499,5 +530,6 @@ SPEC = {
                          'remove_gate': ['removed', 'has_users', 'was_output', 'was_input'],
                          'replace_subcircuit': ['replaced', 'extra_outputs', 'cone_output_is_circuit_output',
                                                 'fault:unlisted_fanout', 'fault:missing_input', 'fault:label_collision',
-                                                'form:rm', 'form:dnf', 'form:chain', 'labels:same_boundary']},
+                                                'form:rm', 'form:dnf', 'form:chain', 'labels:same_boundary',
+                                                'unlisted_fanout_into_cut_point', 'fault:unread_unmapped_input']},
 }
